@@ -36,7 +36,10 @@ _calls = re.findall(r'\b(supla_esp_countdown_timer_startstop|supla_esp_countdown
 # timer could expire inside its own command)
 if not _calls: _evalcmd = 'PATTERN_NO_LONGER_MATCHES_countdown_tail'
 elif _calls[-1].endswith('_cb'): _evalcmd = '1'
-elif _calls[0].endswith('_cb'): _evalcmd = '2'
+elif _calls[0].endswith('_cb'):
+    # 3: ... and only once the finish callback is registered (docs/fixes/C07_countdown_evaluate_when_registered.diff): nothing is
+    # evaluated inside the restore loop of supla_esp_gpio_init, where a restored timer would be released without its callback
+    _evalcmd = '3' if re.search(r'if\s*\(\s*countdown_timer_vars\.finish_cb\s*\)\s*\{?\s*supla_esp_countdown_timer_cb\s*\(', _cd) else '2'
 else: _evalcmd = '0'
 
 G.GROUPS['RelayConsts'] = dict(
